@@ -5,6 +5,17 @@ RULE = ("scenarios over real sockets, each in its own child process with a deadl
         "calls spinning concurrently; Stop and Serve must return within the bound and every session socket must be closed by the server; afterwards "
         "a second Stop, OpenConnections, GetConnectedPeerPublicKeys, GetConnectionNotifyChan, UpdatePublicKeys, Invoke and RegisterService must "
         "return (errors / empty views) without panic or hang, a new connection must not be served, and no server-side wsrpc goroutine may remain")
+SCEN = {  # the harness scenarios as histories of the Stop model
+    "open-sessions": "p_admit 0 ++ p_admit 1 ++ p_admit 2 ++ [LNewStop]",
+    "idle-longer-than-write-timeout": "p_admit 0 ++ [LNewStop]",
+    "calls-both-directions": "p_admit 0 ++ p_admit 1 ++ [LNet 0; LHand 0; LNet 1; LNewStop; LStop 0; LNet 0]",
+    "handshakes-in-progress": "p_admit 0 ++ [LNewHs; LNewHs; LHs 1 true; LHs 1 true; LHs 1 true; LHs 2 true; LHs 2 true; LHs 2 true; LNewStop; LStop 0; LStop 0; LHs 1 true; LHs 2 true]",
+    "concurrent-admin": "p_admit 0 ++ p_admit 1 ++ [LApi AOpen; LNewStop; LStop 0; LApi AKeys; LStop 0; LApi AUpdate; LApi ASend; LNewStop; LStop 1; LStop 1; LApi AChan]",
+    "write-timed-out-before-stop": "p_admit 0 ++ [LWpErr 0; LNewStop]",
+    "peers-closed-first": "p_admit 0 ++ p_admit 1 ++ [LSockDie 0; LRp 0; LWpCwp 0; LSockDie 1; LNewStop]",
+}
+CFG_ORDER = ["stop_again", "api_nil", "hs_quit", "hs_nil", "hs_close", "srp_cconn", "swp_err_sock", "swp_cc_sock", "start_sock", "cb_release", "stop_waits"]
+STRUCT = ["hs_closes_conn", "after_pump_releases"]
 ASSUMPTIONS = ["'bounded' is observed as 3 s (6 s before a hang is declared)"]
 FILES = ["root/fake_test.go", "root/c16_test.go", "root/c07_test.go", "root/peers_test.go", "root/c18_test.go", "root/c06_test.go", "root/session_test.go", "root/c01_test.go", "root/c14_test.go", "root/c11_test.go", "root/c10_test.go"]
 
@@ -24,6 +35,21 @@ def run(ctx, test="^TestVerifC10$", name="C10", files=None):
     if rc != 0 or not recs:
         ctx.fail("harness:" + name, "the " + name + " harness did not run to completion on this tree: " + out[-1500:], kind="correspondence", no_input=True)
         return
+    impl_ok = {}
+    ctx.concrete_seen = False
     for r in recs:
+        sc = (r.get("info") or {}).get("scenario")
+        if sc:
+            impl_ok[sc] = impl_ok.get(sc, True) and not r.get("fail")
         if r.get("fail"):
+            ctx.concrete_seen = True
             ctx.fail(r["fail"].split("/")[0], "shutdown monitor '%s' failed: %s" % (r["fail"], str(r.get("info"))[:500]), case=r)
+    if name == "C10":
+        import props.C09 as c09
+        facts = c09.shape(ctx)
+        if facts:
+            # the model's hs_close / cb_release are the structural facts of wshandler; stop_waits and the rest come from the shape of Stop and the transport
+            facts["stop"]["hs_close"] = facts["struct"].get("hs_closes_conn", False)
+            facts["stop"]["cb_release"] = facts["struct"].get("after_pump_releases", False)
+            c09.model_part(ctx, facts, impl_ok, M=dict(prop="C10", key="stop", order=CFG_ORDER, struct=STRUCT, scen=SCEN, run="Run.RunStop", proofs="Proofs.StopP", what="Stop",
+                                                       stuck="stop_stuck cfg_now %d %s", unsafe="unsafe_seeds cfg_now %d %s", thm1="C10_never_crashes", thm2="C10_stopped_is_final"))
